@@ -49,7 +49,7 @@ def one(mdir):
         res["suite_ok"] = rcb == 0
         verdicts = {}
         for c in checks:
-            rcc, oc = sh(f"QIBO_REPO={wt} /verif/bin/check {c} --tier quick")
+            rcc, oc = sh(f"VERIF_BUILD_TAG=mut{os.getpid()} QIBO_REPO={wt} /verif/bin/check {c} --tier quick")
             lines = [l for l in oc.split("\n") if l.startswith("VIOLATION") or l.startswith("[")]
             verdicts[c] = {"rc": rcc, "lines": [l[:200] for l in lines][:8]}
         res["checks"] = verdicts
